@@ -249,7 +249,9 @@ def programs(draw, max_depth=4, max_stmts=5, allow_spawn=True, allow_with=True):
             for n in names:
                 if n.lower() not in seen:
                     seen.add(n.lower()); out.append(n)
-            return ["PAR", [nv() for _ in out], out]
+            # fewer values than names: the unfilled names are still bound here (to nil), hiding same-named variables of enclosing scopes
+            nvals = len(out) if draw(st.integers(0, 2)) else draw(st.integers(0, len(out)))
+            return ["PAR", [nv() for _ in out][:nvals], out]
         if k == "SV":
             return ["SV", draw(st.sampled_from(NAMESPACES)), gname(), nv()]
         return ["GV", nk(), draw(st.sampled_from(NAMESPACES)), gname()]
@@ -307,6 +309,10 @@ def analyse(prog):
             elif k == "PA":
                 live[-1].update(n.lower() for n in s[1])
             elif k == "PAR":
+                if len(s[1]) < len(s[2]):
+                    labs.add("params_unfilled")
+                    if any(n.lower() in sc for n in s[2][len(s[1]):] for sc in live[:-1]):
+                        labs.add("params_unfilled_hides_outer")
                 live[-1].update(n.lower() for n in s[2])
             elif k in ("R", "A"):
                 n = s[2].lower() if k == "R" else s[1].lower()
